@@ -40,7 +40,8 @@ pub struct Case {
   pub steps: Vec<Step>,
   pub threads: bool,
   /// another subscriber of the same subject, subscribed before the conversion:
-  /// 0 none, 1 unsubscribed at once (a closed entry ahead of the conversion), 2 stays
+  /// 0 none, 1 unsubscribed at once (a closed entry ahead of the conversion), 2 stays,
+  /// 3 stays and the program calls the public `retain()` of the subject before every emission
   pub bystander: u8,
   /// the conversion hangs on `subject.share()` / `share_threads()` instead of the subject itself;
   /// an earlier `take(1)` subscriber of the share has already been served and has finished
@@ -170,7 +171,12 @@ macro_rules! drive {
         for (i, st) in steps.iter().enumerate() {
           let i = i + off;
           match st {
-            Step::Ev(n) => inject(&mut subj, n),
+            Step::Ev(n) => {
+              if c.bystander == 3 {
+                subj.retain();
+              }
+              inject(&mut subj, n)
+            }
             Step::Poll => {
               let r = do_poll(i, &mut fut, &mut resolved, &mut polls);
               let terminated = term_pos.map_or(false, |t| t < i);
@@ -252,7 +258,12 @@ macro_rules! drive {
         for (i, s) in steps.iter().enumerate() {
           let i = i + off;
           match s {
-            Step::Ev(n) => inject(&mut subj, n),
+            Step::Ev(n) => {
+              if c.bystander == 3 {
+                subj.retain();
+              }
+              inject(&mut subj, n)
+            }
             Step::Poll => {
               let ready = poll_one(i, &mut st, &mut got, &mut ended, &mut polls);
               if !ready {
@@ -318,6 +329,9 @@ macro_rules! drive {
           let i = i + off;
           match s {
             Step::Ev(n) => {
+              if c.bystander == 3 {
+                subj.retain();
+              }
               inject(&mut subj, n);
               injected.push(n.clone());
             }
@@ -452,7 +466,7 @@ pub fn random_case(r: &mut Rng, max_items: usize) -> Case {
   for _ in 0..r.below(3) {
     steps.push(Step::Poll);
   }
-  Case { conv, steps, threads: r.chance(1, 2), bystander: [0, 0, 1, 2][r.below(4)], via_share: r.chance(1, 4), cold: r.chance(1, 6) }
+  Case { conv, steps, threads: r.chance(1, 2), bystander: [0, 0, 1, 2, 3][r.below(5)], via_share: r.chance(1, 4), cold: r.chance(1, 6) }
 }
 
 pub fn run(cfg: &Cfg, rep: &mut Report) {
